@@ -1,2 +1,2 @@
 (* one import for the in-Coq evaluation of the checkers and monitors *)
-From MQ Require Export Corr.ConnCorr Corr.ConnTrace Mon.Proj Mon.MonGate Mon.MonTimers Mon.MonIds Mon.MonSession Mon.MonPair Corr.PropsCorr Corr.PkCorr Mon.MonDuo.
+From MQ Require Export Corr.ConnCorr Corr.ConnTrace Mon.Proj Mon.MonGate Mon.MonTimers Mon.MonIds Mon.MonSession Mon.MonPair Corr.PropsCorr Corr.PkCorr Mon.MonDuo Mon.MonContract.
